@@ -68,12 +68,50 @@ class Leaf:
         return 'u'
 
 
-def build(spec, plain_leaves=False):
-    """spec = [id, [child specs]]; plain_leaves: childless nodes are
-    objects without a tpValues method."""
-    if plain_leaves and not spec[1]:
-        return Leaf(spec[0])
-    return Node(spec[0], [build(c, plain_leaves) for c in spec[1]])
+class Transient:
+    """A node whose branches are wrapper objects made for every call
+    (like acquisition wrappers): nobody keeps them alive."""
+
+    def __init__(self, node):
+        self._node = node
+        self.nid = node.nid
+
+    def tpValues(self):
+        return [Transient(c) if isinstance(c, Node) else c
+                for c in self._node.children]
+
+    def tpId(self):
+        return self.nid
+
+    def tpURL(self):
+        return 'u'
+
+
+def build(spec, opts=False, memo=None):
+    """spec = [id, [child specs]].  Harness options (not tag options):
+    'leaf-objects': childless nodes are objects without a tpValues method;
+    'shared-objects': equal subtrees are one object listed under several
+    parents; 'transient-nodes': branches are wrappers made for each call."""
+    if opts is True:
+        opts = 'leaf-objects'
+    opts = opts or ''
+    if 'transient-nodes' in opts:
+        return Transient(build(spec, opts.replace('transient-nodes', '')))
+    if 'shared-objects' in opts:
+        memo = {} if memo is None else memo
+        key = json.dumps(spec)
+        if key in memo:
+            return memo[key]
+    if 'leaf-objects' in opts and not spec[1]:
+        n = Leaf(spec[0])
+    else:
+        n = Node(spec[0], [build(c, opts, memo) for c in spec[1]])
+    if memo is not None:
+        memo[key] = n
+    return n
+
+
+HARNESS_OPTS = ('leaf-objects', 'shared-objects', 'transient-nodes')
 
 
 _T = {}
@@ -83,14 +121,18 @@ _T = {}
 # without a branches method (folders and documents mixed)
 OPTIONS = ['', 'assume_children', 'reverse', 'sort=nid', 'nowrap',
            'assume_children reverse', 'sort=nid reverse', 'leaf-objects',
-           'leaf-objects reverse']
+           'leaf-objects reverse', 'transient-nodes', 'shared-objects',
+           'transient-nodes sort=nid reverse']
 
 
 def template(opts=''):
     from DocumentTemplate import HTML
     if opts not in _T:
+        tag_opts = opts
+        for h in HARNESS_OPTS:
+            tag_opts = tag_opts.replace(h, '')
         _T[opts] = HTML('<dtml-tree root %s>⟦<dtml-var tpId>⟧</dtml-tree>'
-                        % opts.replace('leaf-objects', '').strip())
+                        % tag_opts.strip())
     return _T[opts]
 
 
@@ -299,7 +341,7 @@ def play(spec, history, opts=''):
 
 
 def play_(spec, history, opts=''):
-    root = build(spec, 'leaf-objects' in opts)
+    root = build(spec, opts)
     expanded = set()
     leaves = set()
     rows, cookie, _ = render(root, opts=opts)
@@ -369,7 +411,7 @@ def label(shape, scramble=False):
 
 def explore(spec, max_len, acc, budget, opts=''):
     """Depth-first enumeration of every click history up to max_len."""
-    root = build(spec, 'leaf-objects' in opts)
+    root = build(spec, opts)
     count = [0]
     current = [[]]
 
@@ -453,6 +495,11 @@ def codec_states():
         [[0, []]], [['root']], [['r', [['a' * 200]]]],
         [['root', [['x' * 57]]]], [['root', [['y' * 58], ['z' * 76]]]],
         [['root', [[i] for i in range(60)]]],
+        # ids as os.fsdecode gives them for file names that are not valid
+        # UTF-8 (lone surrogates), controls, quotes and backslashes
+        [['root', [['caf\udce9']]]], [['caf\udce9', [['\udcff\udcfe-old']]]],
+        [['root', [['\udcff\udcfe-old-backup' * 20]]]],
+        [['root', [['a\x00b'], ['q"uo\\te'], ['\x7f\x1f'], ['\ud800']]]],
     ]
     # large states ("any state size"): JSON text from 1 KB to 300 KB, on both
     # sides of every power of two, with incompressible and repetitive ids
@@ -561,11 +608,14 @@ def machine_class():
                                           'reverse', 'nowrap',
                                           'assume_children reverse',
                                           'leaf-objects',
-                                          'leaf-objects reverse']))
+                                          'leaf-objects reverse',
+                                          'transient-nodes',
+                                          'shared-objects',
+                                          'shared-objects reverse']))
         def start(self, t, opts):
             self.spec = ['root', uniq(t)]
             self.opts = opts
-            self.root = build(self.spec, 'leaf-objects' in opts)
+            self.root = build(self.spec, opts)
             self.expanded = set()
             self.leaves = set()
             self.history = []
@@ -676,9 +726,18 @@ def plan(tier, seed):
         for sh in shapes(n):
             if depth(sh) <= 5:
                 small.append(label(sh, scramble=True))
+    def dup_leaves(spec):
+        # childless nodes are called by their position among their siblings:
+        # equal subtrees occur under several parents
+        return [spec[0], [[('l%d' % k) if not c[1] else c[0],
+                           dup_leaves(c)[1]]
+                          for k, c in enumerate(spec[1])]]
     for o in OPTIONS[1:]:
         for half in (0, 1):
-            shards.append(dict(kind='histories', specs=small[half::2],
+            sp = small[half::2]
+            if 'shared-objects' in o:
+                sp = [dup_leaves(x) for x in sp]
+            shards.append(dict(kind='histories', specs=sp,
                                opts=o, maxlen=maxlen))
     shards.append(dict(kind='codec'))
     for i in range(8 if tier == 'quick' else 16):
